@@ -25,6 +25,7 @@ type jDBCase struct {
 	FlushAfter []int    `json:"flush_after"`  // FlushAll after the i-th insert (0-based)
 	ReopenAt   []int    `json:"reopen_after"` // clean Close + reopen after the i-th insert
 	FinalFlush bool     `json:"final_flush"`
+	MemCap     bool     `json:"mem_cap,omitempty"` // MaxMemoryRatio configured: forced flushes are sorted
 	Queries    []jQuery `json:"queries"`
 	NT         bool     `json:"nt"`
 }
@@ -328,6 +329,12 @@ type qResult struct {
 }
 
 func runDBCase(e *Env, c *jDBCase) error {
+	memRatio = 0
+	if c.MemCap {
+		memRatio = 0.95
+		e.Count("mem_cap_sorted_flushes")
+	}
+	defer func() { memRatio = 0 }()
 	dir := tempDir()
 	defer rmDir(dir)
 	t := &c.Table
@@ -480,6 +487,7 @@ func genDBCase(e *Env) *jDBCase {
 			c.ReopenAt = append(c.ReopenAt, len(c.Points)-1)
 		}
 		c.FinalFlush = r.Intn(2) == 0
+		c.MemCap = r.Intn(3) == 0
 		c.Queries = []jQuery{{Mem: true}, genSubsetQuery(r, t, true)}
 		if c.FinalFlush {
 			c.Queries = append(c.Queries, jQuery{Mem: false}, genSubsetQuery(r, t, false))
